@@ -88,7 +88,12 @@ def main() -> int:
             case = {"rec": "prim", "declared": rec["declared"]}
             seen = {"observed": rec["observed"], "found": rec["found"]}
         elif rec["rec"] == "sets":
-            key = {"clause": inv, "kind": rec["kind"], "shape": graph_shape(rec["sets"]), "conforming": rec["conforming"]}
+            if any(0 in o for o in rec["observed"]):
+                # a generated literal is none of the declared values: which declared literals are missing instead?
+                missing = sorted({l for s, o in zip(rec["sets"], rec["observed"]) for l in s["own"] if l not in o})
+                key = {"clause": inv, "kind": rec["kind"], "diagnosis": "unknown_value_instead_of_literal_" + "+".join(str(l) for l in missing)}
+            else:
+                key = {"clause": inv, "kind": rec["kind"], "shape": graph_shape(rec["sets"]), "conforming": rec["conforming"]}
             case = {"rec": "sets", "kind": rec["kind"], "sets": rec["sets"]}
             seen = {"observed": rec["observed"]}
         else:
